@@ -283,7 +283,7 @@ void BuildStructName(char* pResult, unsigned ResultLen, char const* pName) {
     }
 }
 
-void AddStructSymbol(char const* pName, LargeWord Value) {
+LargeWord StructSymbolValue(LargeWord Value) {
     PStructStack ZStruct;
 
     /* what we get is offset/length in current structure.  Add to
@@ -293,6 +293,11 @@ void AddStructSymbol(char const* pName, LargeWord Value) {
     for (ZStruct = StructStack; ZStruct->Next; ZStruct = ZStruct->Next) {
         Value += ZStruct->SaveCurrPC;
     }
+    return Value;
+}
+
+struct sSymbolEntry* AddStructSymbol(char const* pName, LargeWord Value) {
+    Value = StructSymbolValue(Value);
 
     {
         String   tmp;
@@ -302,7 +307,7 @@ void AddStructSymbol(char const* pName, LargeWord Value) {
                 tmp, sizeof(tmp), "%s%c%s", pInnermostNamedStruct->Name,
                 pInnermostNamedStruct->StructRec->ExtChar, pName);
         StrCompMkTemp(&TmpComp, tmp, sizeof(tmp));
-        EnterIntSymbol(&TmpComp, Value, SegNone, False);
+        return EnterIntSymbol(&TmpComp, Value, SegNone, False);
     }
 }
 
